@@ -71,6 +71,28 @@ def _quiet():
 # ======================================================================================
 # scripted single-thread runs
 # ======================================================================================
+class frozen_heap:
+    """The schedulers call gc.collect() in their environment steps (a dropped reference must die at once).  A full collection
+    costs time linear in the number of tracked objects, and the records of the runs pile up: with the thorough / escalated budgets
+    (~20 000 runs after ~5 000 scripts) the loops became quadratic (a run against a tree whose translation is broken took 50 min).
+    Everything allocated so far is moved to the permanent generation (gc.freeze) for the duration of the loop, and again every
+    `every` iterations, so a collection only walks what the loop itself allocated.  Objects still die by reference count."""
+    def __init__(self, every=100):
+        self.every, self.n = every, 0
+
+    def __enter__(self):
+        gc.collect(); gc.freeze()
+        return self
+
+    def tick(self):
+        self.n += 1
+        if self.n % self.every == 0:
+            gc.collect(); gc.freeze()
+
+    def __exit__(self, *a):
+        gc.unfreeze()
+
+
 def gen_script(rng, spec, nkeys, length):
     ops, nret = [], 0
     live = []
@@ -99,9 +121,10 @@ def gen_script(rng, spec, nkeys, length):
 def scripted_runs(ctx, n_per_flavour):
     rng = ctx.subrng("scripts")
     out = []
-    with S.gettz_env():
+    with S.gettz_env(), frozen_heap() as fh:
         for spec in FLAVOURS:
             for i in range(n_per_flavour):
+                fh.tick()
                 cap = rng.choice([0, 1, 2, 3, 5, 8])
                 fac = S.make_factory(spec, cap)
                 ops = gen_script(rng, spec, fac.nkeys, rng.randrange(5, 60))
@@ -222,12 +245,13 @@ def threaded_runs(ctx):
     runs = []
     ctx._c18_shape = []
     max_runs = ctx.budget(160, 700)
-    with S.gettz_env():
+    with S.gettz_env(), frozen_heap(every=50) as fh:
         for ci, (spec, cap, scripts, bound) in enumerate(FIXED_CASES):
             b = bound if ctx.tier == "thorough" or ctx.escalated else (1 if len(scripts) <= 2 else 0)   # quick: small bounds, meant to be exhaustive
             def make(spec=spec, cap=cap, scripts=scripts):
                 return S.make_factory(spec, cap), scripts
             def on_run(rec, fac, scripts, spec=spec, cap=cap, ci=ci):
+                fh.tick()
                 runs.append(summarize(rec, spec, cap, scripts, {"policy": "prefix", "case": ci}))
             try:
                 ex, distinct, exhaustive = S.explore(make, b, max_runs, on_run)
@@ -238,6 +262,7 @@ def threaded_runs(ctx):
             def make(spec=spec, cap=cap, scripts=scripts):
                 return S.make_factory(spec, cap), scripts
             def on_run(rec, fac, scripts, spec=spec, cap=cap, ci=ci):
+                fh.tick()
                 runs.append(summarize(rec, spec, cap, scripts, {"policy": "prefix", "case": "fine%d" % ci, "fine": True}))
             try:
                 b = bound if ctx.tier == "thorough" or ctx.escalated else (1 if len(scripts) <= 2 else 0)
@@ -247,6 +272,7 @@ def threaded_runs(ctx):
                 ctx._c18_shape.append("%s: %s" % (spec, ex))
         rng = ctx.subrng("threads")
         for i in range(ctx.budget(150, 2000)):
+            fh.tick()
             spec, cap, scripts = gen_case(rng)
             seed = rng.randrange(1 << 30)
             rate = rng.choice([0.0, 0.05, 0.15])
@@ -716,11 +742,65 @@ def oracle(ctx):
         ctx.sample({"op": "resolve", "name": rs[0]["name"], "tzpaths": rs[0]["tzpaths"], "result": rs[0]["impl"]})
     # ---- single-thread identity on the process-wide factories ----
     direct_identity(ctx, tz)
+    # ---- local-zone names under a TZ switch: never cached, always the zone of the moment ----
+    local_names_tz_switch(ctx, tz)
     # ---- equality laws, equal offsets, copies and pickles ----
     for env in TZENVS:
         with S.pinned_tz(env):
             zone_laws(ctx, tz, env)
     ctx.hist["preinitialised_singleton"] = int(tz.tzutc._TzSingleton__instance is tz.UTC)
+
+
+def local_names_tz_switch(ctx, tz, only=None):
+    """HISTORY with the process zone as an input: gettz(<abbreviation of the process zone>) is answered with a tzlocal() when the
+    name is neither a zoneinfo key nor a TZ string.  A tzlocal mirrors the environment at construction, so gettz must hand out a
+    NEW one on every call and must never retain it (neither in the weak instance map nor in the LRU): after TZ changes (tzset)
+    the same name must reflect the new zone, exactly like gettz.nocache(name) and tzlocal() do."""
+    import time
+    if not hasattr(time, "tzset"):
+        ctx.count("local_name_switch_skipped_no_tzset"); return
+    rng = ctx.subrng("local-names")
+    known = set(S.zoneinfo_names())
+    seqs = [("XYZT", ["XYZT4", "XYZT-9", "XYZT4"]), ("QQQ", ["QQQ-3", "QQQ5QQD,M3.2.0,M11.1.0", "QQQ-3:30"]),
+            ("WXYZ", ["WXYZ3WXYD", "WXYZ-11", "AAA2WXYZ,M3.2.0,M11.1.0"])]
+    for _ in range(ctx.budget(6, 40)):
+        nm = "".join(rng.choice("BCDFGHJKLMNPQRSTVWXZ") for _ in range(rng.choice((3, 4, 5))))
+        if nm in known or tz.gettz.nocache(nm) is not None and False:
+            continue
+        envs = []
+        for _ in range(rng.choice((2, 3, 4))):
+            off = rng.choice((-11, -9, -5, -3, 0, 2, 4, 5, 8, 12))
+            envs.append("%s%d" % (nm, off) if rng.random() < 0.7 else "%s%d%sD,M3.2.0,M11.1.0" % (nm, off, nm[:3]))
+        seqs.append((nm, envs))
+    if only is not None:
+        seqs = [(only["name"], only["tzs"])]
+    probes = [datetime.datetime(2021, 1, 15, 12, 0), datetime.datetime(2021, 7, 15, 12, 0)]
+    for name, tzs in seqs:
+        tz.gettz.cache_clear()
+        held = []                                  # keep every earlier object referenced: a weak map would still find it
+        for step, env in enumerate(tzs):
+            with S.pinned_tz(env):
+                if name not in time.tzname:
+                    ctx.count("local_name_not_in_tzname"); continue
+                a = tz.gettz(name); b = tz.gettz(name); f = tz.gettz.nocache(name); want = tz.tzlocal()
+                case = {"op": "local_name_switch", "name": name, "tzs": tzs, "step": step}
+                if not isinstance(a, tz.tzlocal):
+                    ctx.case(("local-name", name, tuple(tzs), step), nontrivial=False); ctx.count("local_name_resolves_elsewhere"); continue
+                ctx.case(("local-name", name, tuple(tzs), step)); ctx.count("local_name_switch_step%d" % min(step, 2))
+                probs = []
+                if a is b:
+                    probs.append("gettz(%r) handed out the same tzlocal object twice (a zone that mirrors the process zone must not be cached)" % name)
+                if any(a is h or b is h for h in held):
+                    probs.append("gettz(%r) returned a tzlocal built under an earlier TZ setting" % name)
+                for z, lab in ((a, "gettz"), (b, "gettz#2"), (f, "gettz.nocache")):
+                    if not (z == want) or [p.replace(tzinfo=z).utcoffset() for p in probes] != [p.replace(tzinfo=want).utcoffset() for p in probes]:
+                        probs.append("%s(%r) under TZ=%s does not reflect the process zone: %s vs tzlocal() %s" % (
+                            lab, name, env, [str(p.replace(tzinfo=z).utcoffset()) for p in probes],
+                            [str(p.replace(tzinfo=want).utcoffset()) for p in probes]))
+                held += [a, b]
+                for pr in probs[:1]:
+                    ctx.violation(pr, case, probs)
+        tz.gettz.cache_clear()
 
 
 def direct_identity(ctx, tz):
@@ -973,6 +1053,12 @@ def replay(ctx, payload):
             tree.close()
         print("gettz.nocache(%r): impl %s, documented order %s" % (c["name"], impl, spec))
         return impl == spec
+    if c.get("op") == "local_name_switch":
+        sub = type(ctx)(ctx.prop, ctx.tier, ctx.seed)
+        local_names_tz_switch(sub, tz, only=c)
+        for v in sub.violations[:5]:
+            print(v["what"])
+        return not sub.violations
     if c.get("op") == "cache_clear_identity":
         a = tz.gettz(c["name"]); tz.gettz.cache_clear(); b = tz.gettz(c["name"])
         print("gettz(%r): same object after cache_clear: %s" % (c["name"], a is b))
